@@ -2761,6 +2761,15 @@ def groupby_reduce(
 
     assert nax <= by_.ndim
     if nax < by_.ndim:
+        if by_.shape != array.shape[-by_.ndim :]:
+            # labels with size-1 axes: the per-slice offsetting of the codes below needs them
+            # at full shape (a view for numpy labels)
+            if is_duck_dask_array(by_):
+                import dask.array
+
+                by_ = dask.array.broadcast_to(by_, array.shape[-by_.ndim :])
+            else:
+                by_ = np.broadcast_to(by_, array.shape[-by_.ndim :])
         by_ = _move_reduce_dims_to_end(by_, tuple(-array.ndim + ax + by_.ndim for ax in axis_))
         array = _move_reduce_dims_to_end(array, axis_)
         axis_ = tuple(array.ndim + np.arange(-nax, 0))
